@@ -352,7 +352,7 @@ func ruleTruncateOnClose(r *Report) {
 		bad := ""
 		n := 0
 		for _, fn := range p.FuncsOfPkg("recordio") {
-			if fn.Signature.Recv() == nil || !strings.HasSuffix(typeShort(fn.Signature.Recv().Type()), "recordio.FileWriter") || fn.Name() == "Open" {
+			if fn.Signature.Recv() == nil || !strings.HasSuffix(typeShort(fn.Signature.Recv().Type()), "recordio.FileWriter") || fnName(fn) == "Open" {
 				continue
 			}
 			eachInstr(fn, func(s Site) {
